@@ -14,6 +14,15 @@ extern "C"
     struct video_monitor_s
     {
         struct channel_reader reader;
+
+        /// Serializes the client's map/unmap calls with the flush that
+        /// acquire_stop() performs on the same reader from another thread.
+        struct lock lock;
+
+        /// Set by acquire_stop() when it finds the reader mapped: the region
+        /// is left to the client, and what remains of the finished
+        /// acquisition is discarded when the client unmaps.
+        uint8_t flush_on_unmap;
     };
 
     struct video_s
